@@ -8,12 +8,10 @@
   request or a world write lock), or none.  Consequently the transactions that may write one
   account are chained by dependencies in block order (`writers_are_chained`).
 
-  NOT proved (only tested against the real code and the sequential reference by the
-  correspondence run and the oracle): that every interleaving of the event system built on this
-  table (`Sim` in Model/C09) is equivalent to the sequential execution.  The statement is kept
-  below as a comment next to `serializable_partial`.
+  On top of that: `serializable` (every schedule of the event system `Sim` = sequential execution)
+  and `deadlock_free`, with witness theorems for the excluded block shapes.
 -/
-import Goloop.Proofs.C09
+import Goloop.Proofs.C09Ser
 namespace Goloop.C09
 open Goloop.C09.Proofs
 
@@ -23,54 +21,7 @@ theorem lastWriter_spec (a : Nat) : ∀ (pre : List Tx) (base : Nat),
     (∀ k, lastWriter base pre a = some k →
       ∃ h : k - base < pre.length, base ≤ k ∧ mayWrite (pre[k - base]).reqs a = true ∧
         ∀ j (hj : j < pre.length), k - base < j → mayWrite (pre[j]).reqs a = false) ∧
-    (lastWriter base pre a = none → ∀ j (hj : j < pre.length), mayWrite (pre[j]).reqs a = false) := by
-  intro pre
-  induction pre with
-  | nil => intro base; simp [lastWriter]
-  | cons t rest ih =>
-    intro base
-    obtain ⟨ih1, ih2⟩ := ih (base + 1)
-    simp only [lastWriter]
-    cases hl : lastWriter (base + 1) rest a with
-    | some k' =>
-      refine ⟨?_, by simp⟩
-      intro k hk
-      simp only [Option.some.injEq] at hk
-      subst hk
-      obtain ⟨h, hb, hm, hafter⟩ := ih1 k' hl
-      have e : k' - base = (k' - (base + 1)) + 1 := by omega
-      refine ⟨by simp only [List.length_cons]; omega, by omega, ?_, ?_⟩
-      · simp only [e, List.getElem_cons_succ]; exact hm
-      · intro j hj hlt
-        cases j with
-        | zero => omega
-        | succ j =>
-          simp only [List.getElem_cons_succ]
-          exact hafter j (by simpa using hj) (by omega)
-    | none =>
-      simp only
-      by_cases hm : mayWrite t.reqs a = true
-      · simp only [hm, if_true]
-        refine ⟨?_, by simp⟩
-        intro k hk
-        simp only [Option.some.injEq] at hk
-        subst hk
-        refine ⟨by simp, Nat.le_refl _, by simpa using hm, ?_⟩
-        intro j hj hlt
-        cases j with
-        | zero => omega
-        | succ j =>
-          simp only [List.getElem_cons_succ]
-          exact ih2 hl j (by simpa using hj)
-      · have hm' : mayWrite t.reqs a = false := by simpa using hm
-        simp only [hm', Bool.false_eq_true, if_false]
-        refine ⟨by simp, ?_⟩
-        intro _ j hj
-        cases j with
-        | zero => simpa using hm'
-        | succ j =>
-          simp only [List.getElem_cons_succ]
-          exact ih2 hl j (by simpa using hj)
+    (lastWriter base pre a = none → ∀ j (hj : j < pre.length), mayWrite (pre[j]).reqs a = false) := Proofs.lastWriter_spec' a
 
 /-- For EVERY block (sequence of lock-request lists), every transaction `i` and every account entry
     the bookkeeping creates for it: the recorded dependency is the last earlier transaction that may
@@ -130,18 +81,110 @@ theorem writers_are_chained (txs : List Tx) (i : Nat) (hi : i < txs.length) (lk 
         cases hw
     · simpa [List.getElem_take] using hm
 
-/-
-  serializable (full statement, NOT proved): for every schedule of `Sim` events (one program step
-  or one Commit of one transaction, each fired only when `enabledTx` holds) that commits every
-  transaction of a block whose transactions request no world READ lock and whose world write
-  lockers access the state before committing: every value observed by transaction `i` equals the
-  value observed by `i` in `runSeq`, and the final store equals the one of `runSeq`.
-  What is proved of it is only the statement below: the schedule constraint the event system
-  relies on (dependencies = last earlier writer) is what the bookkeeping computes.
--/
-theorem serializable_partial (txs : List Tx) (i : Nat) (hi : i < txs.length) (lk : Locks)
-    (hlk : (build txs)[i]? = some lk) (l : Las) (hl : l ∈ lk.las) :
-    l.depend = lastWriter 0 (txs.take i) l.acct :=
-  depend_is_last_writer txs i hi lk hlk l hl
+/-! ### serializability of the event system `Sim`
+
+`Supported txs` (Proofs/C09Seq) states which blocks are covered:
+* `noWorldRead`  – no request for a READ lock on the whole world (no handler makes one);
+* `worldTouches` – a transaction holding the world WRITE lock has a non-empty program, i.e. it
+  accesses the state before it commits (the worker always calls `ctx.UpdateSystemInfo()`);
+* `valid`        – a write step goes to an account the transaction may write, or to an undeclared
+  account (where the code returns nil and nothing happens); a write through a read-only account
+  state panics in the code.
+The two witness theorems below show that the first two hypotheses cannot be dropped.
+
+A schedule is a list of transaction indices; `runSched` fires them one by one and yields `none` as
+soon as one of them is not enabled, so `runSched … = some s` says "`s` is reached by a sequence of
+enabled events" – any interleaving of program steps and Commits the blocking discipline admits. -/
+
+theorem ext_getD (l1 l2 : List Nat) (hl : l1.length = l2.length) (h : ∀ a, l1.getD a 0 = l2.getD a 0) :
+    l1 = l2 := by
+  apply List.ext_getElem hl
+  intro a h1 h2
+  have := h a
+  simpa [List.getD_eq_getElem?_getD, h1, h2] using this
+
+/-- SERIALIZABLE. For every supported block, every account universe and EVERY schedule of enabled
+    events:
+    (a) at every moment, what each transaction has observed so far (every value a read returned,
+        `none` for an undeclared account) is a prefix of what it observes in the sequential
+        execution of the block – i.e. a read returns the value left by all earlier transactions in
+        block order (and by the transaction's own earlier writes);
+    (b) once every transaction is committed, the world state equals the sequential final state
+        and every transaction's list of observations equals the sequential one. -/
+theorem serializable (txs : List Tx) (hs : Supported txs) (nacc : Nat) (sched : List Nat) (s : Sim)
+    (hrun : runSched txs (build txs) sched (simInit nacc txs) = some s) :
+    (∀ i, i < txs.length → (s.sts.getD i {}).loc.obs <+: (runSeq nacc txs).2.getD i []) ∧
+    ((∀ i, i < txs.length → s.isCommitted i = true) →
+      s.real = (runSeq nacc txs).1 ∧ s.sts.map (fun st => st.loc.obs) = (runSeq nacc txs).2) := by
+  have h := inv_runSched hs sched _ s (inv_init hs nacc) hrun
+  rw [runSeq_eq]
+  constructor
+  · intro i hi
+    have hloc := h.loc i hi
+    have hpc := h.pcLe i hi
+    simp only [stOf] at hloc hpc
+    rw [hloc]
+    simp only [List.getD_eq_getElem?_getD, List.getElem?_map, List.getElem?_range hi, Option.map_some,
+      Option.getD_some]
+    exact partialRun_obs_prefix _ _ _ _ _ _ hpc
+  · intro hall
+    constructor
+    · apply ext_getD
+      · rw [h.lenR, seqState_length]
+      · intro a
+        exact h.fin a (fun j hj _ => hall j hj)
+    · apply List.ext_getElem
+      · simp [h.lenS]
+      · intro i h1 h2
+        have hi : i < txs.length := by simpa using h2
+        have hst : stOf s i = s.sts[i]'(by simpa using h1) := by
+          simp [stOf, List.getD_eq_getElem?_getD, (by simpa using h1 : i < s.sts.length)]
+        simp only [List.getElem_map, List.getElem_range]
+        rw [← hst, h.loc i hi, h.commPc i hi (hall i hi)]
+
+/-- The executable `simulate` that the correspondence run compares with the real code (token or
+    priority schedules) is an instance: whatever it returns satisfies `serializable`. -/
+theorem simulate_serializable (txs : List Tx) (hs : Supported txs) (nacc fuel : Nat) (sc : Sched)
+    (hok : SchedOK txs.length sc) (s : Sim)
+    (hsim : simulate txs (build txs) fuel (simInit nacc txs) sc = some s)
+    (hall : ∀ i, i < txs.length → s.isCommitted i = true) :
+    s.real = (runSeq nacc txs).1 ∧ s.sts.map (fun st => st.loc.obs) = (runSeq nacc txs).2 := by
+  obtain ⟨sched, hrun⟩ := simulate_is_schedule txs (build txs) fuel _ sc s hok hsim
+  exact (serializable txs hs nacc sched s hrun).2 hall
+
+/-- the hypotheses are satisfiable by a block with conflicts, a world write lock and an unused lock -/
+example : Supported [⟨[⟨some 1, .write⟩, ⟨some 0, .read⟩], [.r 0, .r 1, .w 1]⟩,
+                     ⟨[⟨some 1, .write⟩], []⟩,
+                     ⟨[⟨none, .write⟩], [.r 0, .w 1, .w 2]⟩,
+                     ⟨[⟨some 1, .read⟩, ⟨some 2, .write⟩], [.r 1, .w 2, .r 3]⟩] :=
+  ⟨by decide, by decide, by decide⟩
+
+/-- DEADLOCK FREEDOM: in every state of `Sim` (reachable or not) in which some transaction of the
+    block is not committed, some event is enabled – the least uncommitted transaction can always
+    make its next program step or commit. -/
+theorem deadlock_free (txs : List Tx) (s : Sim)
+    (hunc : ∃ i, i < txs.length ∧ s.isCommitted i = false) :
+    ∃ i, i < txs.length ∧ enabledTx txs (build txs) s i = true :=
+  exists_enabled hunc
+
+/-- WITNESS that `noWorldRead` is needed: with a world READ lock the event system (and the real
+    code: `blk g 3 3 w1:w1 R:r1,r2 w1:w1 p 2 1 0`) lets the world reader observe the write of a
+    LATER transaction: transaction 1 reads 317 from account 1, sequentially it reads 115. -/
+theorem world_read_lock_not_serializable :
+    let txs : List Tx := [⟨[⟨some 1, .write⟩], [.w 1]⟩, ⟨[⟨none, .read⟩], [.r 1, .r 2]⟩, ⟨[⟨some 1, .write⟩], [.w 1]⟩]
+    (runSched txs (build txs) [0, 0, 2, 2, 1, 1, 1] (simInit 3 txs)).map (fun s => s.sts.map (fun st => st.loc.obs))
+      = some [[], [some 317, some 3000], []] ∧
+    (runSeq 3 txs).2 = [[], [some 115, some 3000], []] := by
+  decide
+
+/-- WITNESS that `worldTouches` is needed: a world write locker that commits without touching the
+    state (`blk g 3 3 w1:r1,w1 W:- w1:r1,w1 p 2 1 0`) lets transaction 2 run before transaction 0:
+    transaction 2 reads the initial 2000 from account 1, sequentially it reads 34234. -/
+theorem idle_world_writer_not_serializable :
+    let txs : List Tx := [⟨[⟨some 1, .write⟩], [.r 1, .w 1]⟩, ⟨[⟨none, .write⟩], []⟩, ⟨[⟨some 1, .write⟩], [.r 1, .w 1]⟩]
+    (runSched txs (build txs) [1, 2, 2, 2, 0, 0, 0] (simInit 3 txs)).map (fun s => s.sts.map (fun st => st.loc.obs))
+      = some [[some 34436], [], [some 2000]] ∧
+    (runSeq 3 txs).2 = [[some 2000], [], [some 34234]] := by
+  decide
 
 end Goloop.C09
